@@ -17,6 +17,7 @@ type RunOpts struct {
 	Trace    bool
 	Diff     bool
 	MaxSteps int
+	Thorough bool
 }
 
 type HarnessResult struct {
@@ -76,6 +77,7 @@ func RunHarness(ld *Loaded, key, name string, opt RunOpts, stats *SolverStats) *
 	r := NewRun(ld.in, opt.CapMs, local)
 	r.pkgPath = ps.path
 	r.wallLimit = opt.Wall
+	r.thorough = opt.Thorough
 	r.solver.diffAll = opt.Diff
 	if opt.MaxSteps > 0 {
 		r.maxSteps = opt.MaxSteps
